@@ -73,27 +73,27 @@ func main() {
 }
 `
 
-var reErrLine = regexp.MustCompile(`s2/cases\.go:(\d+):\d+: (.*)`)
+var reErrLine = regexp.MustCompile(`s2/(cases\d+\.go):(\d+):\d+: (.*)`)
 var reNum = regexp.MustCompile(`[0-9]+`)
 
 type idx struct {
-	i, lo, hi        int
-	entry, typ, snap string
+	i, lo, hi              int
+	entry, typ, snap, file string
 }
 
 func readIndex(path string) []idx {
 	b, _ := os.ReadFile(path)
 	var out []idx
 	for _, l := range strings.Split(string(b), "\n") {
-		f := strings.SplitN(l, "\t", 6)
-		if len(f) < 6 {
+		f := strings.SplitN(l, "\t", 7)
+		if len(f) < 7 {
 			continue
 		}
 		i, _ := strconv.Atoi(f[0])
 		lo, _ := strconv.Atoi(f[1])
 		hi, _ := strconv.Atoi(f[2])
 		s, _ := strconv.Unquote(f[5])
-		out = append(out, idx{i, lo, hi, f[3], f[4], s})
+		out = append(out, idx{i, lo, hi, f[3], f[4], s, f[6]})
 	}
 	return out
 }
@@ -108,7 +108,7 @@ func TestProp(t *testing.T) {
 	c := pkit.Load(prop)
 	c.Check(t, func(rt *rapid.T) {
 		s := e2.DrawStructural(rt, e2.StructOpt{
-			Env:    progen.EnvOpt{ExportedOnly: true, NoPrivateExt: true, DistinctExt: true, PtrKeys: true, Avoid: c.ActiveSet()},
+			Env:    progen.EnvOpt{ExportedOnly: true, NoPrivateExt: true, PtrKeys: true, Avoid: c.ActiveSet()},
 			NTypes: 14, Carriers: true,
 			Roles: []string{"gostring"},
 			EnumFn: func(env *progen.Env) []*progen.Type {
@@ -215,12 +215,16 @@ func stage2(c *pkit.Ctx, dir string) (failSig map[string]string, failMsg string)
 	if b.Exit != 0 {
 		// map compile errors back to cases
 		byCase := map[int]string{}
+		pos := map[int]int{} // case number -> position in index
+		for n, ix := range index {
+			pos[ix.i] = n
+		}
 		for _, m := range reErrLine.FindAllStringSubmatch(b.Stderr, -1) {
-			ln, _ := strconv.Atoi(m[1])
+			ln, _ := strconv.Atoi(m[2])
 			for _, ix := range index {
-				if ln >= ix.lo && ln <= ix.hi {
+				if ix.file == m[1] && ln >= ix.lo && ln <= ix.hi {
 					if _, ok := byCase[ix.i]; !ok {
-						byCase[ix.i] = m[2]
+						byCase[ix.i] = m[3]
 					}
 				}
 			}
@@ -234,7 +238,7 @@ func stage2(c *pkit.Ctx, dir string) (failSig map[string]string, failMsg string)
 			is = append(is, i)
 		}
 		sort.Ints(is)
-		ix := index[is[0]]
+		ix := index[pos[is[0]]]
 		c.Rep.AddExtra("expressions_not_compiling", int64(len(is)))
 		failSig = map[string]string{"check": "compile", "class": errClass(byCase[is[0]])}
 		failMsg = fmt.Sprintf("deriveGoString output does not compile for type %s, value %s:\n%s\n(%d of %d expressions fail to compile)", ix.typ, ix.snap, byCase[is[0]], len(is), len(index))
